@@ -118,7 +118,7 @@ def handleDerived : Sexp → Option String
         | .list [.atom "built", b] :: envs => do some (some (← parseExpr ctx b), envs)
         | envs => some (none, envs)
       let same := match built, mkDerived ctx op exprs with
-        | some b, some m => if reprStr b == reprStr m then "same" else s!"differs:{reprStr m}"
+        | some b, some m => if reprStr b == reprStr m then "same" else s!"differs:{(reprStr m).replace "\n" " "}"
         | _, none => "na"
         | none, _ => "na"
       let envl ← envs.mapM parseEnv
